@@ -144,3 +144,51 @@ theorem drivers_converge (ns : Bytes) (hns : ns.length = 32) (now : Nat)
   · rw [b3, hfy]; exact htot.2.1
 
 end Session
+
+namespace Session
+open Ranger Replica Spec Tables
+
+/-- **The immediately following session transfers nothing.** When the two table stores hold the
+same entries for the document (as after `drivers_converge`), the acceptor answers the initiator's
+first frame with silence: it writes no frame, both ends succeed, nothing is stored anywhere, and all
+four counters are zero. -/
+theorem drivers_second_session_silent (ns : Bytes) (hns : ns.length = 32) (now : Nat)
+    (hv : ∀ e, syncValidate now ns e = true → e.ns = ns ∧ Wf e)
+    (ta tb : T) (inva : TablesInv ta) (invb : TablesInv tb) (heq : nsRecords ta ns = nsRecords tb ns)
+    (accept : Bytes → Accept) (hacc : accept ns = .allow) :
+    let m0 := initialMessage (tableOps ns) ta
+    let bob := bobRun (okActor ns now) accept [.frame (.init ns m0)] .eof { t := tb }
+    let alice := aliceRun (okActor ns now) ns (bob.written.map .frame) .eof { t := ta }
+    bob.result = .ok ns ∧ bob.written = [] ∧ nsRecords bob.store.t ns = nsRecords tb ns ∧
+    (∃ ob, bob.progress = some ob ∧ ob.numRecv = 0 ∧ ob.numSent = 0) ∧
+    (∃ oa, alice.result = .ok oa ∧ oa.numRecv = 0 ∧ oa.numSent = 0) ∧ alice.store.t = ta := by
+  intro m0 bob alice
+  obtain ⟨hrep, _, hstore⟩ := second_session_silent_tables ns hns (syncValidate now ns) (fun _ => 2) hv ta tb inva invb heq {}
+  have hst : (syncProcessMessage {} tb ns now m0 {}).1 =
+      processMessage (tableOps ns) {} (syncValidate now ns) (fun _ => 2) tb m0 := by
+    unfold syncProcessMessage; rfl
+  have hcount : valueCount m0 = 0 := initialMessage_valueCount (tableOps ns) ta
+  have hb : bob = { result := .ok ns, written := [], progress := some (syncProcessMessage {} tb ns now m0 {}).2,
+                    store := { t := (syncProcessMessage {} tb ns now m0 {}).1.store, done := 0 + 1 }, calls := 0 + 1 } := by
+    show bobRun _ _ _ _ _ = _
+    unfold bobRun
+    rw [bobLoop_init _ _ _ _ _ _ _ _ _ _ hacc, okActor_call]
+    have : (syncProcessMessage {} tb ns now m0 {}).1.reply = none := by rw [hst]; exact hrep
+    simp only [this]
+  have hcounts := syncProcessMessage_counts {} tb ns now m0 {}
+  simp only at hcounts
+  have hrn : (syncProcessMessage {} tb ns now m0 {}).1.reply = none := by rw [hst]; exact hrep
+  rw [hrn] at hcounts
+  have hinit : (okActor ns now).initial { t := ta } ns = some m0 := by simp [okActor, tableActor, m0]
+  have ha : alice = { result := .ok {}, written := [.init ns m0], store := { t := ta }, calls := 0 } := by
+    show aliceRun _ _ _ _ _ = _
+    rw [hb]
+    simp only [List.map_nil, aliceRun, hinit, aliceLoop]
+  refine ⟨by rw [hb], by rw [hb], ?_, ⟨_, by rw [hb], ?_, ?_⟩, ⟨_, by rw [ha], rfl, rfl⟩, by rw [ha]⟩
+  · rw [hb]
+    show nsRecords (syncProcessMessage {} tb ns now m0 {}).1.store ns = _
+    rw [hst]; exact hstore
+  · rw [hcounts.1, hcount]
+  · rw [hcounts.2]; rfl
+
+end Session
